@@ -177,6 +177,7 @@ func checkC03(c *Check) {
 	}
 	c.Rule("R5d", "a waiting acquisition reports the case that fired: once the semaphore's slot was taken the limiter returns success, never an error re-read from the context afterwards – a slot taken under a reported failure is returned by nobody (C11.R9)", 2)
 	importRules(c, "C11", c11OutcomeMatchesCase, map[string]bool{"R9": true}, "R5d")
+	c03ReleaseBeforeForgetting(c, "R5e")
 	for f := range sub11.funcs {
 		c.SawFunc(f)
 	}
